@@ -53,7 +53,11 @@ func NewValidatorSet(validators *ConsensusValidators, delegate ...bool) (Validat
 				return ValidatorSet{}, ErrPubKeyFromBytes(err)
 			}
 		}
-		// update total voting power
+		// update total voting power (a total that does not fit in 64 bits is rejected, never wrapped)
+		if totalPower+v.VotingPower < totalPower {
+			// exit with error
+			return ValidatorSet{}, ErrInvalidArgument()
+		}
 		totalPower += v.VotingPower
 		// increment the count
 		count++
@@ -64,7 +68,8 @@ func NewValidatorSet(validators *ConsensusValidators, delegate ...bool) (Validat
 		return ValidatorSet{}, ErrNoValidators()
 	}
 	// calculate the minimum power for a two-thirds majority (2f+1)
-	minPowerFor23Maj := (2*totalPower)/3 + 1
+	// NOTE: floor(2*total/3)+1 computed without overflowing 2*total
+	minPowerFor23Maj := 2*(totalPower/3) + (2*(totalPower%3))/3 + 1
 	var multiPublicKey crypto.MultiPublicKeyI
 	// for validators, create a composite multi-public key out of the public
 	// keys (in curve point format)
